@@ -40,6 +40,7 @@ Definition F_BOOT : N := 8.
 Definition F_CLI : N := 10.
 Definition F_FIDO2 : N := 11.
 Definition F_X509 : N := 9.
+Definition F_OKTA : N := 7.
 
 Definition has (l f : N) : bool := N.testbit l f.
 Definition add (l f : N) : N := N.lor l (2 ^ f).
@@ -84,8 +85,13 @@ Record st := {
   spent : list onetime;                (* ghost *)
   now : Z;                             (* seconds *)
   fresh : N;
-  minted : list N                      (* ghost: the id of every one-time value ever handed out (challenge,
+  minted : list N;                     (* ghost: the id of every one-time value ever handed out (challenge,
                                           bootstrap OTP, push transaction), newest first *)
+  okta : N -> option Z;                (* the Okta authenticator: recentAuth[user].expires (the cached answer of the
+                                          last successful password check, with the user's state token) *)
+  opush : N -> N;                      (* the Okta service: push verification of the user's current state token —
+                                          0 not started, 1 waiting, 2 approved, 3 finished *)
+  acks : N                             (* number of requests answered 200 without a cookie or a new value *)
 }.
 
 Definition upd {A} (m : N -> A) (u : N) (a : A) : N -> A := fun x => if N.eqb x u then a else m x.
@@ -102,14 +108,17 @@ Record config := {
   totp_monotone : bool;      (* validateUserTOTP refuses steps <= the last accepted one (repaired) *)
   chal_expiry : bool;        (* the finish handlers test the challenge's ExpiresAt (repaired) *)
   chal_delete_wa : bool;     (* u2fSignResponse deletes the challenge on the WebAuthn-key path (repaired) *)
-  upgrade_checks_owner : bool (* updateAuthCookieAuthlevel refuses a cookie of another user than the
+  upgrade_checks_owner : bool;(* updateAuthCookieAuthlevel refuses a cookie of another user than the
                                  authenticated one (repaired) *)
+  okta_on : bool;            (* state.passwordChecker is the Okta authenticator (password logins AND the Okta
+                                second factor go to the Okta authn API) *)
+  okta_life : Z              (* lifetime of the cached primary response: expiresAt of the authn answer *)
 }.
 
 Definition init : st :=
   {| issued := []; tokens := []; vip := []; txs := []; approved := [];
      chal := fun _ => None; last_totp := fun _ => 0%Z; boot := fun _ => None;
-     proved := []; spent := []; now := 0%Z; fresh := 0; minted := [] |}.
+     proved := []; spent := []; now := 0%Z; fresh := 0; minted := []; okta := fun _ => None; opush := fun _ => 0%N; acks := 0 |}.
 
 (* environment's view of presented values *)
 Inductive otpcode := VGood (owner : N) | VBad.                         (* VIP one-time code *)
@@ -137,6 +146,10 @@ Inductive op :=
 | ShowTok (cs : list nat) (life : Z)
 | SendDoc (cs : list nat) (tk : nat)
 | Tick (dt : Z)
+| OktaOtp (cs : list nat) (code : otpcode)   (* Okta2FAuthHandler: a pass code for the user's Okta TOTP factor *)
+| OktaPushStart (cs : list nat)              (* oktaPushStartHandler *)
+| OktaApprove (u : N)                        (* the owner of u's phone approves the Okta push (environment) *)
+| OktaPoll (cs : list nat)                   (* oktaPollCheckHandler *)
 | Req (cert : option N) (fault : bool) (o : op).
 
 (* ---- checkAuth ---- *)
@@ -174,25 +187,35 @@ Definition auth (k : config) (s : st) (cert : option N) (cs : list nat) (mask : 
 
 Definition set_issued (s : st) (l : list cookie) : st :=
   {| issued := l; tokens := tokens s; vip := vip s; txs := txs s; approved := approved s; chal := chal s;
-     last_totp := last_totp s; boot := boot s; proved := proved s; spent := spent s; now := now s; fresh := fresh s; minted := minted s |}.
+     last_totp := last_totp s; boot := boot s; proved := proved s; spent := spent s; now := now s; fresh := fresh s; minted := minted s; okta := okta s; opush := opush s; acks := acks s |}.
 Definition set_ghost (s : st) (p : list (N * N * Z)) (sp : list onetime) : st :=
   {| issued := issued s; tokens := tokens s; vip := vip s; txs := txs s; approved := approved s; chal := chal s;
-     last_totp := last_totp s; boot := boot s; proved := p; spent := sp; now := now s; fresh := fresh s; minted := minted s |}.
+     last_totp := last_totp s; boot := boot s; proved := p; spent := sp; now := now s; fresh := fresh s; minted := minted s; okta := okta s; opush := opush s; acks := acks s |}.
 Definition set_chal (s : st) (c : N -> option challenge) (fr : N) : st :=
   {| issued := issued s; tokens := tokens s; vip := vip s; txs := txs s; approved := approved s; chal := c;
-     last_totp := last_totp s; boot := boot s; proved := proved s; spent := spent s; now := now s; fresh := fr; minted := minted s |}.
+     last_totp := last_totp s; boot := boot s; proved := proved s; spent := spent s; now := now s; fresh := fr; minted := minted s; okta := okta s; opush := opush s; acks := acks s |}.
 Definition set_boot (s : st) (b : N -> option boototp) (fr : N) : st :=
   {| issued := issued s; tokens := tokens s; vip := vip s; txs := txs s; approved := approved s; chal := chal s;
-     last_totp := last_totp s; boot := b; proved := proved s; spent := spent s; now := now s; fresh := fr; minted := minted s |}.
+     last_totp := last_totp s; boot := b; proved := proved s; spent := spent s; now := now s; fresh := fr; minted := minted s; okta := okta s; opush := opush s; acks := acks s |}.
 Definition set_totp (s : st) (l : N -> Z) : st :=
   {| issued := issued s; tokens := tokens s; vip := vip s; txs := txs s; approved := approved s; chal := chal s;
-     last_totp := l; boot := boot s; proved := proved s; spent := spent s; now := now s; fresh := fresh s; minted := minted s |}.
+     last_totp := l; boot := boot s; proved := proved s; spent := spent s; now := now s; fresh := fresh s; minted := minted s; okta := okta s; opush := opush s; acks := acks s |}.
+
+Definition set_okta (s : st) (ok : N -> option Z) (p : N -> N) (a : N) : st :=
+  {| issued := issued s; tokens := tokens s; vip := vip s; txs := txs s; approved := approved s; chal := chal s;
+     last_totp := last_totp s; boot := boot s; proved := proved s; spent := spent s; now := now s;
+     fresh := fresh s; minted := minted s; okta := ok; opush := p; acks := a |}.
+
+(* oktaAuth.GetValidUserResponse: the cached answer of the user's last successful password check, unless
+   past its expiry *)
+Definition okta_valid (s : st) (u : N) : bool :=
+  match okta s u with Some e => negb (e <=? now s)%Z | None => false end.
 
 (* a new one-time value: its id is `fresh s`, which is recorded as handed out *)
 Definition mint (s : st) : st :=
   {| issued := issued s; tokens := tokens s; vip := vip s; txs := txs s; approved := approved s; chal := chal s;
      last_totp := last_totp s; boot := boot s; proved := proved s; spent := spent s; now := now s;
-     fresh := fresh s + 1; minted := fresh s :: minted s |}.
+     fresh := fresh s + 1; minted := fresh s :: minted s; okta := okta s; opush := opush s; acks := acks s |}.
 
 (* updateAuthCookieAuthlevel(w, r, username, authlevel): the LAST attached auth_cookie (the one
    checkAuth authenticated) is re-signed with the given level (which REPLACES the cookie's own; sub,
@@ -240,7 +263,9 @@ Definition step_req (cert : option N) (fault : bool) (s : st) (o : op) : st * op
   | Login u ok =>
       if ok then
         let c := {| cuser := u; clevel := add 0 F_PW; ciat := now s; cexp := (now s + cookie_life k)%Z |} in
-        (set_ghost (set_issued s (issued s ++ [c])) ((u, F_PW, now s) :: proved s) (spent s), Some c)
+        let s0 := if okta_on k   (* the authn API answered with a NEW state token, cached until its expiresAt *)
+                  then set_okta s (upd (okta s) u (Some (now s + okta_life k)%Z)) (upd (opush s) u 0%N) (acks s) else s in
+        (set_ghost (set_issued s0 (issued s0 ++ [c])) ((u, F_PW, now s) :: proved s0) (spent s0), Some c)
       else (s, None)
   | Logout cs => (s, None)
   | VipOtp cs code =>
@@ -270,7 +295,7 @@ Definition step_req (cert : option N) (fault : bool) (s : st) (o : op) : st * op
                   vip := {| vc := v; vuser := u; vtx := tx; vexp := (now s + vip_life k)%Z |} :: vip s;
                   txs := (tx, u) :: txs s; approved := approved s; chal := chal s;
                   last_totp := last_totp s; boot := boot s; proved := proved s; spent := spent s;
-                  now := now s; fresh := fresh s + 1; minted := fresh s :: minted s |}, None)
+                  now := now s; fresh := fresh s + 1; minted := fresh s :: minted s; okta := okta s; opush := opush s; acks := acks s |}, None)
           end
       end
   | Approve tx =>
@@ -278,7 +303,7 @@ Definition step_req (cert : option N) (fault : bool) (s : st) (o : op) : st * op
       | Some u =>
           ({| issued := issued s; tokens := tokens s; vip := vip s; txs := txs s;
               approved := tx :: approved s; chal := chal s; last_totp := last_totp s; boot := boot s;
-              proved := (u, F_VIP, now s) :: proved s; spent := spent s; now := now s; fresh := fresh s; minted := minted s |}, None)
+              proved := (u, F_VIP, now s) :: proved s; spent := spent s; now := now s; fresh := fresh s; minted := minted s; okta := okta s; opush := opush s; acks := acks s |}, None)
       | None => (s, None)
       end
   | Poll cs v =>
@@ -420,7 +445,7 @@ Definition step_req (cert : option N) (fault : bool) (s : st) (o : op) : st * op
       | Some (u, l) =>
           ({| issued := issued s; tokens := tokens s ++ [{| towner := u; texp := (now s + life)%Z |}];
               vip := vip s; txs := txs s; approved := approved s; chal := chal s; last_totp := last_totp s;
-              boot := boot s; proved := proved s; spent := spent s; now := now s; fresh := fresh s; minted := minted s |}, None)
+              boot := boot s; proved := proved s; spent := spent s; now := now s; fresh := fresh s; minted := minted s; okta := okta s; opush := opush s; acks := acks s |}, None)
       end
   | SendDoc cs tk =>
       match auth k s cert cs (webui k) with
@@ -440,7 +465,63 @@ Definition step_req (cert : option N) (fault : bool) (s : st) (o : op) : st * op
   | Tick dt =>
       ({| issued := issued s; tokens := tokens s; vip := vip s; txs := txs s; approved := approved s;
           chal := chal s; last_totp := last_totp s; boot := boot s; proved := proved s; spent := spent s;
-          now := (now s + Z.max 0 dt)%Z; fresh := fresh s; minted := minted s |}, None)
+          now := (now s + Z.max 0 dt)%Z; fresh := fresh s; minted := minted s; okta := okta s; opush := opush s; acks := acks s |}, None)
+  | OktaOtp cs code =>
+      match auth k s cert cs any_mask with
+      | None => (s, None)
+      | Some (u, l) =>
+          if negb (okta_on k) then (s, None)           (* "password authenticator is not okta" *)
+          else if negb (okta_valid s u) then (s, None)  (* no recent password check of this user: not valid *)
+          else
+            (* ValidateUserOTP(authUser, otp): the pass code is verified against the state token of the
+               authenticated user *)
+            match code with
+            | VGood owner =>
+                if N.eqb owner u then
+                  let (s1, out) := upgrade k s u cs (add l F_OKTA) in
+                  (set_ghost s1 ((owner, F_OKTA, now s) :: proved s1) (spent s1), out)
+                else (s, None)
+            | VBad => (s, None)
+            end
+      end
+  | OktaPushStart cs =>
+      match auth k s cert cs any_mask with
+      | None => (s, None)
+      | Some (u, l) =>
+          if negb (okta_on k) then (s, None)
+          else if negb (okta_valid s u) then (s, None)
+          else
+            (* ValidateUserPush(user): the first verification call for a state token sends the push; 200
+               exactly when the service answers WAITING *)
+            if N.eqb (opush s u) 0 then (set_okta s (okta s) (upd (opush s) u 1%N) (acks s + 1), None)
+            else if N.eqb (opush s u) 1 then (set_okta s (okta s) (opush s) (acks s + 1), None)
+            else if N.eqb (opush s u) 2 then
+              (* the service answers SUCCESS and finishes the transaction; this handler does not upgrade
+                 ("Push already sent"): the approval is lost *)
+              (set_okta s (okta s) (upd (opush s) u 3%N) (acks s), None)
+            else (s, None)
+      end
+  | OktaApprove u =>
+      if N.eqb (opush s u) 1 then
+        let s1 := set_okta s (okta s) (upd (opush s) u 2%N) (acks s) in
+        (set_ghost s1 ((u, F_OKTA, now s) :: proved s1) (spent s1), None)
+      else (s, None)
+  | OktaPoll cs =>
+      match auth k s cert cs any_mask with
+      | None => (s, None)
+      | Some (u, l) =>
+          if negb (okta_on k) then (s, None)
+          else if negb (okta_valid s u) then (s, None)
+          else if N.eqb (opush s u) 0 then
+            (set_okta s (okta s) (upd (opush s) u 1%N) (acks s), None)   (* the call itself sends the push; WAITING: 412 *)
+          else if N.eqb (opush s u) 2 then
+            (* SUCCESS: the service confirms NOW that the authenticated user approved; the state token's
+               transaction is finished *)
+            let s1 := set_okta s (okta s) (upd (opush s) u 3%N) (acks s) in
+            let (s2, out) := upgrade k s1 u cs (add l F_OKTA) in
+            (set_ghost s2 ((u, F_OKTA, now s) :: proved s2) (spent s2), out)
+          else (s, None)
+      end
   | Req _ _ _ => (s, None)      (* wrappers do not nest *)
   end.
 
@@ -467,11 +548,15 @@ Fixpoint run (s : st) (ops : list op) : st * list (option cookie) :=
 
 End Step.
 
-(* the code as repaired *)
-Definition fixed (d : N -> devices) (w : N) : config :=
+(* the code as repaired; `ok`: the password backend is the Okta authenticator, whose cached answers
+   live `life` seconds *)
+Definition fixed_with (d : N -> devices) (w : N) (ok : bool) (life : Z) : config :=
   {| devs := d; webui := w; cookie_life := 57600; sel_last := true; upg_last := true;
      vip_life := 120; vip_expiry := true; poll_checks_user := true; totp_monotone := true;
-     chal_expiry := true; chal_delete_wa := true; upgrade_checks_owner := true |}.
+     chal_expiry := true; chal_delete_wa := true; upgrade_checks_owner := true;
+     okta_on := ok; okta_life := life |}.
+Definition fixed (d : N -> devices) (w : N) : config := fixed_with d w false 300.
+Definition fixed_okta (d : N -> devices) (w : N) (life : Z) : config := fixed_with d w true life.
 
 (* ---- correspondence: per step, did the handler answer with success, the claims of the cookie the
         server emitted, and the identity of the one-time value it handed out (a challenge, a bootstrap
@@ -481,7 +566,8 @@ Definition fixed (d : N -> devices) (w : N) : config :=
         mint `fresh s` (Proofs: never handed out before).  Success of an operation that emits no cookie
         shows in the state: a new value (fresh) or a new token. ---- *)
 Definition changed (s s' : st) : bool :=
-  negb (N.eqb (fresh s) (fresh s')) || negb (Nat.eqb (length (tokens s)) (length (tokens s'))).
+  negb (N.eqb (fresh s) (fresh s')) || negb (Nat.eqb (length (tokens s)) (length (tokens s'))) ||
+  negb (N.eqb (acks s) (acks s')).
 
 (* the id of the one-time value the step handed out *)
 Definition handed (s s' : st) : option N :=
@@ -495,7 +581,7 @@ Definition obs := (bool * option cookie * option N)%type.
 Definition step_obs (k : config) (s : st) (o : op) : st * obs :=
   let (s', out) := step k s o in
   let ok := match (match o with Req _ _ o' => o' | _ => o end) with
-            | Logout _ | Approve _ | Tick _ => true
+            | Logout _ | Approve _ | Tick _ | OktaApprove _ => true
             | _ => (match out with Some _ => true | None => false end) || changed s s'
             end in
   (s', (ok, out, handed s s')).
